@@ -512,6 +512,9 @@ class ExprMixin:
             return a.term == b.term
         if isinstance(a, Cont) and isinstance(b, Cont):
             return z3.BoolVal(a.loc.key() == b.loc.key())
+        if a.t.kind in ('int', 'optint') and b.t.kind in ('int', 'optint'):
+            # enum members modelled by their integer values
+            return self.term(a, st, OPTINT) == self.term(b, st, OPTINT)
         raise VCError('is-comparison of %r and %r' % (a, b))
 
     def equal(self, a, b, st, frame, node):
